@@ -648,7 +648,7 @@ func main() {
 			return nil, "bad-op"
 		}
 		if v, _ := hx.KV(cfg, "via"); v == "srv" {
-			s.srv = httptest.NewServer(s.lb)
+			s.srv = hx.NewServer(s.lb)
 		}
 		return s, "ok"
 	})
